@@ -115,10 +115,10 @@ func (r *c13Reader) Read(p []byte) (int, error) {
 
 func VerifC13_Interruptions() {
 	verifOwnPanics()
+	// three reader calls in both tiers (four calls of eight kinds exceed the
+	// path budget); the thorough tier adds the round-robin schedule and a zero
+	// wait time
 	calls := 3
-	if verifTier() > 0 {
-		calls = 4
-	}
 	// quick: the lazy schedule and a wait time of 1 ms; thorough: round-robin
 	// and a zero wait time as well
 	maxSched, minWait := 0, 1
